@@ -120,6 +120,15 @@ CHECKS = {
          'literal, select the literal\'s clause in a consulted fact table, and read back the same codes and length; different '
          'texts must be \\== and ordered by code points.',
     note='Identity observed through ==, compare/3, clause selection and read-back (not the raw atom index).'),
+ 'C22': dict(
+    level='exploration',
+    technique='runtime monitoring: reference model on Python str (code points) incl. ISO enumeration order and error cases; char_type against ISO 6.5 tables and mode consistency',
+    text='Generated atoms (ASCII, 2-4 byte characters, combining marks) are given to atom_length/2, atom_chars/2, atom_codes/2, '
+         'char_code/2, atom_concat/3 and sub_atom/5 in every instantiation mode (enumerations compared in ISO order), with '
+         'ill-typed/unbound arguments for the ISO errors, and char_type/2 is compared with the ISO character tables for ASCII, '
+         'Python case mapping for stable cased letters and its own enumerating mode.',
+    note='Trusted: Python str semantics; non-ASCII classification only checked for mode consistency. Atoms containing the '
+         'single-quote character are left to C55 (results are read through the printer).'),
 }
 
 NOT_APPLICABLE_REASON_UNBUILT = ('check designed in DESIGN.md but not built/validated yet in this session; '
